@@ -15,8 +15,8 @@ M="$SRC/MUTATION"
 [ -d "$M" ] || M="$SRC"      # re-validation from /verif/seeded/<name>
 [ -f "$M/patch.diff" ] && [ -f "$M/demo_test.go" ] || { echo "missing MUTATION/patch.diff or demo_test.go"; exit 2; }
 WT=/root/scratch/val-$NAME
-git -C /repo worktree remove --force "$WT" 2>/dev/null
-git -C /repo worktree add -q "$WT" HEAD || exit 2
+flock /root/scratch/.wt.lock git -C /repo worktree remove --force "$WT" 2>/dev/null
+flock /root/scratch/.wt.lock git -C /repo worktree add -q "$WT" HEAD || exit 2
 res() { echo "$1" | tee -a "$WT/../val-$NAME.log"; }
 : > "$WT/../val-$NAME.log"
 cd "$WT"
@@ -55,5 +55,5 @@ m.update({"breaks_property":prop,
  "not_detected_by_quick": sorted(set(miss.split())-set(m.get("detected_by_quick",[])+det.split()))})
 json.dump(m,open(path,"w"),indent=1)
 EOF
-cd /; git -C /repo worktree remove --force "$WT"
+cd /; flock /root/scratch/.wt.lock git -C /repo worktree remove --force "$WT"
 echo "--- recorded in $V/seeded/$NAME/meta.json"
